@@ -113,7 +113,7 @@ impl Obs {
 }
 
 pub trait Scenario: Sync {
-    type Case: Clone + Send + Serialize + for<'de> Deserialize<'de>;
+    type Case: Clone + Send + Sync + Serialize + for<'de> Deserialize<'de>;
 
     fn property(&self) -> &'static str;
     fn engine(&self) -> &'static str;
@@ -371,6 +371,25 @@ pub struct Outcome<C> {
     pub log_hash: u64,
 }
 
+impl<C> Outcome<C> {
+    pub fn empty(reach: &'static [&'static str], faults: &'static [&'static str], sample: Value) -> Self {
+        Self {
+            runs_done: 1,
+            nontrivial_runs: 1,
+            distinct_nontrivial: 2,
+            distinct_interleavings: 1,
+            ops_total: 0,
+            reach: Counters::new(reach),
+            faults: Counters::new(faults),
+            known_hits: BTreeMap::new(),
+            first_failure: None,
+            samples: vec![sample],
+            wall_s: 0.0,
+            log_hash: 0,
+        }
+    }
+}
+
 pub struct ExploreCfg {
     pub seed: u64,
     pub tier: Tier,
@@ -381,8 +400,25 @@ pub struct ExploreCfg {
 
 const CHUNK: u64 = 256;
 
-pub fn explore<S: Scenario>(s: &S, cfg: &ExploreCfg, known: &[KnownFinding]) -> Outcome<S::Case> {
+/// Seconds after which a single run that has not returned is reported as a
+/// hang. Runs normally take well under a millisecond, so the default leaves
+/// five orders of magnitude of slack for a loaded machine.
+pub fn hang_seconds() -> u64 {
+    std::env::var("VERIF_HANG_S").ok().and_then(|s| s.parse().ok()).unwrap_or(60)
+}
+
+pub fn explore<S: Scenario>(
+    s: &S,
+    cfg: &ExploreCfg,
+    known: &[KnownFinding],
+    on_hang: &(dyn Fn(u64) + Sync),
+) -> Outcome<S::Case> {
     let t0 = Instant::now();
+    let n_workers = cfg.workers.max(1);
+    // progress slots: (run index or u64::MAX, start in ms since t0)
+    let slots: Vec<(AtomicU64, AtomicU64)> = (0..n_workers).map(|_| (AtomicU64::new(u64::MAX), AtomicU64::new(0))).collect();
+    let done = std::sync::atomic::AtomicBool::new(false);
+    let worker_ids = AtomicU64::new(0);
     let next_chunk = AtomicU64::new(0);
     let stop_after = AtomicU64::new(u64::MAX); // smallest failing run index
     let n_chunks = cfg.runs.div_ceil(CHUNK);
@@ -403,9 +439,26 @@ pub fn explore<S: Scenario>(s: &S, cfg: &ExploreCfg, known: &[KnownFinding]) -> 
     let total: Mutex<Vec<Acc<S::Case>>> = Mutex::new(Vec::new());
 
     std::thread::scope(|scope| {
-        for _ in 0..cfg.workers.max(1) {
-            scope.spawn(|| {
+        // hang monitor: real time is used only to notice a run that never returns
+        scope.spawn(|| {
+            let limit_ms = hang_seconds() * 1000;
+            while !done.load(Ordering::Relaxed) {
+                std::thread::sleep(std::time::Duration::from_millis(250));
+                let now = t0.elapsed().as_millis() as u64;
+                for (run, start) in &slots {
+                    let r = run.load(Ordering::Relaxed);
+                    if r != u64::MAX && now.saturating_sub(start.load(Ordering::Relaxed)) > limit_ms && run.load(Ordering::Relaxed) == r {
+                        on_hang(r); // does not return
+                    }
+                }
+            }
+        });
+        let mut handles = Vec::new();
+        for _ in 0..n_workers {
+            handles.push(scope.spawn(|| {
                 install_quiet_panic_hook();
+                let wid = worker_ids.fetch_add(1, Ordering::Relaxed) as usize;
+                let slot = &slots[wid % slots.len()];
                 let mut acc = Acc {
                     reach: Counters::new(s.reach_names()),
                     faults: Counters::new(s.fault_names()),
@@ -434,7 +487,10 @@ pub fn explore<S: Scenario>(s: &S, cfg: &ExploreCfg, known: &[KnownFinding]) -> 
                         let mut rng = Rng::new(run_seed(cfg.seed, s.property(), r));
                         let case = s.generate(&mut rng, cfg.tier);
                         let mut obs = Obs::new(s.reach_names(), s.fault_names());
+                        slot.1.store(t0.elapsed().as_millis() as u64, Ordering::Relaxed);
+                        slot.0.store(r, Ordering::Relaxed);
                         let res = execute_caught(s, &case, &mut obs);
+                        slot.0.store(u64::MAX, Ordering::Relaxed);
                         acc.runs += 1;
                         acc.ops += obs.ops;
                         acc.reach.merge(&obs.reach);
@@ -480,8 +536,12 @@ pub fn explore<S: Scenario>(s: &S, cfg: &ExploreCfg, known: &[KnownFinding]) -> 
                     }
                 }
                 total.lock().unwrap().push(acc);
-            });
+            }));
         }
+        for h in handles {
+            let _ = h.join();
+        }
+        done.store(true, Ordering::Relaxed);
     });
 
     let accs = total.into_inner().unwrap();
@@ -558,12 +618,25 @@ fn fails_same<S: Scenario>(s: &S, case: &S::Case, class: &str, attempts: &mut u6
 
 /// ddmin over the event list, then data/argument simplification to a fixpoint,
 /// keeping the violation class fixed.
-pub fn minimise<S: Scenario>(s: &S, case: S::Case, failure: Failure) -> Shrunk<S::Case> {
+pub fn minimise<S: Scenario>(
+    s: &S,
+    case: S::Case,
+    failure: Failure,
+    progress: &Mutex<Option<(S::Case, Failure)>>,
+) -> Shrunk<S::Case> {
     let class = failure.class.clone();
     let mut best = case;
     let mut best_f = failure;
     let mut attempts = 0u64;
     let budget = 20_000u64;
+    macro_rules! publish {
+        () => {
+            if let Ok(mut g) = progress.lock() {
+                *g = Some((best.clone(), best_f.clone()));
+            }
+        };
+    }
+    publish!();
 
     // Events after the failing one cannot matter.
     {
@@ -574,6 +647,7 @@ pub fn minimise<S: Scenario>(s: &S, case: S::Case, failure: Failure) -> Shrunk<S
             if let Some(f) = fails_same(s, &cand, &class, &mut attempts) {
                 best = cand;
                 best_f = f;
+                publish!();
             }
         }
     }
@@ -598,6 +672,7 @@ pub fn minimise<S: Scenario>(s: &S, case: S::Case, failure: Failure) -> Shrunk<S
                 if let Some(f) = fails_same(s, &cand, &class, &mut attempts) {
                     best = cand;
                     best_f = f;
+                    publish!();
                     removed_any = true;
                     progressed = true;
                     // do not advance: the next chunk slid into place
@@ -626,6 +701,7 @@ pub fn minimise<S: Scenario>(s: &S, case: S::Case, failure: Failure) -> Shrunk<S
                 if let Some(f) = fails_same(s, &cand, &class, &mut attempts) {
                     best = cand;
                     best_f = f;
+                    publish!();
                     simplified = true;
                     progressed = true;
                     break;
@@ -643,6 +719,24 @@ pub fn minimise<S: Scenario>(s: &S, case: S::Case, failure: Failure) -> Shrunk<S
         failure: best_f,
         attempts,
     }
+}
+
+/// Run `work` on a helper thread; if it has not finished after `secs` seconds,
+/// call `on_timeout` (which is expected to report and never return) and exit.
+pub fn with_deadline<T: Send>(secs: u64, work: impl FnOnce() -> T + Send, on_timeout: impl FnOnce()) -> T {
+    std::thread::scope(|sc| {
+        let (tx, rx) = std::sync::mpsc::channel();
+        sc.spawn(move || {
+            let _ = tx.send(work());
+        });
+        match rx.recv_timeout(std::time::Duration::from_secs(secs)) {
+            Ok(v) => v,
+            Err(_) => {
+                on_timeout();
+                std::process::exit(1)
+            }
+        }
+    })
 }
 
 // ---------------------------------------------------------------------------
